@@ -281,6 +281,13 @@ func checkC10(ctx *pbt.Ctx, c c10Case) error {
 	}
 	lres, fres := out.Resp.Results[0], out.Resp.Results[1]
 	if lres.Stage == "parse" || fres.Stage == "parse" {
+		if lres.Stage == "parse" {
+			if err := syntaxRejection(lq.String(), lres.Err, len(lq.Proj)); err != nil {
+				return err
+			}
+		} else if err := syntaxRejection(fq.String(), fres.Err, len(fq.Proj)); err != nil {
+			return err
+		}
 		ctx.Label("rejected-by-parser")
 		return nil
 	}
